@@ -62,6 +62,10 @@ def gen_cases(ck):
     c = {'info': {'name': 'T', 'piece length': L, 'length': 2 ** 1024, 'pieces': bytes(20)}}; corpus.append((c, 'corpus 2^1024 length'))
     c = {'info': {'name': 'T', 'piece length': 2 ** 1024, 'length': 3 * 2 ** 1024 + 1, 'pieces': bytes(80)}}; corpus.append((c, 'corpus sound beyond float range'))
     c = copy.deepcopy(base); c['info']['files'] = {0: {'length': 10, 'path': ['a']}, 1: {'length': L, 'path': ['b']}}; corpus.append((c, 'corpus files as dict'))
+    for falsy in ([], (), {}, 0, None, ''):
+        # a single-file length next to a 'files' entry that is present but falsy
+        c = {'info': {'name': 'T', 'piece length': L, 'length': 10, 'files': falsy, 'pieces': bytes(20)}}
+        corpus.append((c, 'corpus length and falsy files %r' % (falsy,)))
     c = copy.deepcopy(base); c['url-list'] = 'nourl'; corpus.append((c, 'corpus bad url-list'))
     c = copy.deepcopy(base); c['announce'] = 'http://h:99999'; corpus.append((c, 'corpus bad port'))
     c = copy.deepcopy(base); del c['info']; corpus.append((c, 'corpus no info'))
